@@ -145,20 +145,42 @@ macro_rules! fam_emis {
 }
 
 /// C06 with `BitErr`: the last error of a rejected parse vs refsem's furthest failure.
+/// `$perms`: permissive-corner selectors (DESIGN 2.2); the furthest failure is computed under each and the first
+/// reading that agrees with the real error on (user-error flag, position, expected set) is the one judged — if
+/// none agrees, the first selector is judged (and fails).
 #[macro_export]
 macro_rules! fam_far {
-    ($P:literal, $p:expr, $ast:expr, $x:expr, $t:expr) => {{
+    ($P:literal, $p:expr, $ast:expr, $x:expr, $t:expr) => {
+        $crate::fam_far!($P, $p, $ast, $x, $t, [0u8])
+    };
+    ($P:literal, $p:expr, $ast:expr, $x:expr, $t:expr, $perms:expr) => {{
         let r = $p.parse($x);
         $crate::contract(&r);
         let (out, errs) = r.into_output_errors();
+        let perms: &[u8] = &$perms;
         let mut env = $crate::refsem::Env::new($x, &$t);
+        env.perm = perms[0];
         let e = $crate::refsem::parse(&$ast, &mut env);
         $crate::check!(concat!($P, ":acceptance"), e.is_some() == out.is_some());
         if out.is_none() && e.is_none() {
             $crate::check!(concat!($P, ":exactly-one-error"), errs.len() == 1);
             if let Some(le) = errs.last() {
-                let far = env.far;
                 use $crate::errs::MkErr;
+                let mut far = env.far;
+                let mut k = 1;
+                while k < perms.len() {
+                    let agrees = far.custom == le.custom() && (le.custom() || le.start() == far.pos) && le.exp() == far.exp;
+                    if !agrees {
+                        let mut env2 = $crate::refsem::Env::new($x, &$t);
+                        env2.perm = perms[k];
+                        let _ = $crate::refsem::parse(&$ast, &mut env2);
+                        let f2 = env2.far;
+                        if f2.custom == le.custom() && (le.custom() || le.start() == f2.pos) && le.exp() == f2.exp {
+                            far = f2;
+                        }
+                    }
+                    k += 1;
+                }
                 let le_start = le.start();
                 $crate::check!(concat!($P, ":span-well-formed"), le.start() <= le.end() && le.end() <= $x.len());
                 // a user-supplied error (try_map / custom) is preserved iff one was raised at the furthest position
